@@ -1890,6 +1890,10 @@ class Interp:
             # a reference to an object of a record the analysis stands in for (e.g. "the workspace in use")
             env[s["id"]] = self.alias_records[ty["n"]]
             return
+        if ty.get("c") == "ptr" and (ty.get("pointee") or {}).get("c") == "record" and (ty.get("pointee") or {}).get("n") in self.alias_records:
+            # a pointer to such an object: it points at the stand-in
+            env[s["id"]] = ("ptr", self.alias_records[ty["pointee"]["n"]])
+            return
         if s.get("bind") == "alias" or (ty.get("c") == "eigen" and ty.get("tmpl") in ("Block", "VectorBlock", "Transpose", "Ref", "Map")):
             r = self.evl(init, env)
             env[s["id"]] = r
